@@ -569,7 +569,7 @@ pub fn run(ctx: &Ctx) -> ! {
     let mut rep = Report::new(
         ctx,
         "model_checking",
-        "messages {empty operation group, Print-Job request, Get-Printer-Attributes response, bare IppPayload} x payload source {none, blocking cursor, blocking 1-byte dribbler, blocking with Interrupted, async ready, async fragmented, async not-ready with immediate wake, async not-ready with deferred wake (fired by the manual executor / a helper thread under block_on)} x payload length {0,1,2,8191,8192,8193 (+65536, 3 MiB)} x consumer {into_read, into_async_read, into_async_read coming back with a DIFFERENT buffer after every not-ready answer} with EVERY sequence of <= 2 (3) buffer sizes over {0,1,2,3,8,H-1,H,H+1,4096,65536} (a zero-length buffer must return 0 without ending the stream) followed by a fixed size from {7,4096,65536} until end-of-stream; plus payload sources (blocking and async) that FAIL after 0, 1, 5, 8192, 8193 bytes with each of 10 error kinds, read through both interfaces: the stream may fail but never ends cleanly before the payload did, and what it delivered is a prefix of the expected stream; the same with a TRANSIENT failure (returned once, then the source goes on) and a consumer that reads on: nothing may be lost or duplicated around the failure; plus payloads of 1 GiB + 4097 (thorough: and 4 GiB + 4097) bytes from a pattern generator, verified on the fly, for both source kinds x both interfaces. Oracle: bytes received == to_bytes() ++ payload, then Ok(0) three times (when the payload source is first touched is recorded, not judged). states = distinct (message, source, length, interface); transitions = reads answered by the payload source; non-trivial = non-empty payload",
+        "messages {empty operation group, Print-Job request, Get-Printer-Attributes response, bare IppPayload} x payload source {none, blocking cursor, blocking 1-byte dribbler, blocking with Interrupted, async ready, async fragmented, async not-ready with immediate wake, async not-ready with deferred wake (fired by the manual executor / a helper thread under block_on)} x payload length {0,1,2,8191,8192,8193 (+65536, 3 MiB)} x consumer {into_read, into_async_read, into_async_read coming back with a DIFFERENT buffer after every not-ready answer} with EVERY sequence of <= 2 (3) buffer sizes over {0,1,2,3,8,H-1,H,H+1,4096,65536} (a zero-length buffer must return 0 without ending the stream) followed by a fixed size from {7,4096,65536} until end-of-stream; the same streams through read_vectored / poll_read_vectored with five slice shapes (empty first slice, small + large, an empty slice in the middle, two large, two empty + one); plus payload sources (blocking and async) that FAIL after 0, 1, 5, 8192, 8193 bytes with each of 10 error kinds, read through both interfaces: the stream may fail but never ends cleanly before the payload did, and what it delivered is a prefix of the expected stream; the same with a TRANSIENT failure (returned once, then the source goes on) and a consumer that reads on: nothing may be lost or duplicated around the failure; plus payloads of 1 GiB + 4097 (thorough: and 4 GiB + 4097) bytes from a pattern generator, verified on the fly, for both source kinds x both interfaces. Oracle: bytes received == to_bytes() ++ payload, then Ok(0) three times (when the payload source is first touched is recorded, not judged). states = distinct (message, source, length, interface); transitions = reads answered by the payload source; non-trivial = non-empty payload",
     );
     rep.assume("deferred wake-ups under the blocking interface are fired by a helper OS thread (block_on must be woken from outside); its timing does not influence the byte stream");
     let msgs = messages();
@@ -577,6 +577,10 @@ pub fn run(ctx: &Ctx) -> ! {
     if let Some(p) = &ctx.replay {
         let (_, j) = vmc::report::load_replay(p);
         let mut st = Stats::new();
+        if j["section"].as_str() == Some("vectored") {
+            println!("replay: vectored-consumer case ({}); re-run the check to reproduce", j);
+            std::process::exit(0)
+        }
         if j["section"].as_str() == Some("huge") {
             println!("replay: huge-payload case ({}); re-run the check to reproduce", j);
             std::process::exit(0)
@@ -683,6 +687,120 @@ pub fn run(ctx: &Ctx) -> ! {
             rep.absorb(p);
         }
     }
+    // vectored consumers: the same streams read through read_vectored / poll_read_vectored with several buffers per
+    // call (an empty first slice, small then large, three slices with an empty one in the middle, two large ones)
+    let shapes: [&[usize]; 5] = [&[0, 7], &[3, 5], &[1, 0, 4096], &[4096, 4096], &[0, 0, 64]];
+    let vlens: [usize; 5] = [0, 1, 9, 8191, 8193];
+    let radices = [msgs.len() as u64, N_SOURCES - 1, vlens.len() as u64, shapes.len() as u64, 2];
+    let mut vs = Stats::new();
+    for p in par_range(ctx.threads, vmc::explore::product(&radices), 16, Stats::new, |st, idx| {
+        let t = vmc::explore::unrank(idx, &radices);
+        let (mi, source, len, shape, async_consumer) = (t[0] as usize, t[1] + 1, vlens[t[2] as usize], shapes[t[3] as usize], t[4] == 1);
+        if source == 7 && !async_consumer {
+            return; // deferred wake-ups under the blocking interface need the helper thread of the main section
+        }
+        st.evaluations += 1;
+        st.traces += 1;
+        let pay = Arc::new(payload_bytes(len, seed));
+        let built = make_payload(source, &pay);
+        let mon = built.mon.clone();
+        let (head, rd_sync, rd_async): (Vec<u8>, Option<Box<dyn Read>>, Option<Pin<Box<dyn AsyncRead>>>) = match &msgs[mi] {
+            Some(m) => {
+                let mut req = build_ipp(m);
+                let head = req.to_bytes().to_vec();
+                *req.payload_mut() = built.payload;
+                if async_consumer {
+                    (head, None, Some(Box::pin(req.into_async_read())))
+                } else {
+                    (head, Some(Box::new(req.into_read())), None)
+                }
+            }
+            None => {
+                if async_consumer {
+                    (vec![], None, Some(Box::pin(built.payload)))
+                } else {
+                    (vec![], Some(Box::new(built.payload)), None)
+                }
+            }
+        };
+        let mut expected = head;
+        expected.extend_from_slice(&pay);
+        let limit = 4 * expected.len() + 2000;
+        let r: Result<Vec<u8>, String> = if let Some(mut rd) = rd_sync {
+            match std::panic::catch_unwind(std::panic::AssertUnwindSafe(move || {
+                let mut out = vec![];
+                let mut bufs: Vec<Vec<u8>> = shape.iter().map(|l| vec![0u8; *l]).collect();
+                for _ in 0..limit {
+                    let mut slices: Vec<std::io::IoSliceMut> = bufs.iter_mut().map(|b| std::io::IoSliceMut::new(b)).collect();
+                    match rd.read_vectored(&mut slices) {
+                        Ok(0) => return Ok(out),
+                        Ok(mut n) => {
+                            if n > shape.iter().sum::<usize>() {
+                                return Err("read_vectored returned more than the buffers hold".to_string());
+                            }
+                            for b in &bufs {
+                                let k = n.min(b.len());
+                                out.extend_from_slice(&b[..k]);
+                                n -= k;
+                            }
+                        }
+                        Err(e) if e.kind() == ErrorKind::Interrupted => continue,
+                        Err(e) => return Err(format!("read error {:?}", e.kind())),
+                    }
+                }
+                Err("no end-of-stream".to_string())
+            })) {
+                Ok(x) => x,
+                Err(p) => Err(format!("panic: {}", panic_text(p))),
+            }
+        } else {
+            let mut rd = rd_async.unwrap();
+            let fut = async move {
+                let mut out = vec![];
+                let mut bufs: Vec<Vec<u8>> = shape.iter().map(|l| vec![0u8; *l]).collect();
+                for _ in 0..limit {
+                    let mut slices: Vec<std::io::IoSliceMut> = bufs.iter_mut().map(|b| std::io::IoSliceMut::new(b)).collect();
+                    match rd.read_vectored(&mut slices).await {
+                        Ok(0) => return Ok(out),
+                        Ok(mut n) => {
+                            if n > shape.iter().sum::<usize>() {
+                                return Err("poll_read_vectored reported more than the buffers hold".to_string());
+                            }
+                            for b in &bufs {
+                                let k = n.min(b.len());
+                                out.extend_from_slice(&b[..k]);
+                                n -= k;
+                            }
+                        }
+                        Err(e) => return Err(format!("read error {:?}", e.kind())),
+                    }
+                }
+                Err("no end-of-stream".to_string())
+            };
+            match std::panic::catch_unwind(std::panic::AssertUnwindSafe(|| run_manual(fut, &mon, 8 * limit + 64, None))) {
+                Ok(Run::Done { value, .. }) => value,
+                Ok(Run::LostWakeup { polls }) => Err(format!("lost wake-up after {} polls", polls)),
+                Ok(Run::Horizon { polls }) => Err(format!("not finished after {} polls", polls)),
+                Err(p) => Err(format!("panic: {}", panic_text(p))),
+            }
+        };
+        st.transitions += mon.calls.load(SeqCst) as u64;
+        st.nontrivial.insert(idx);
+        let iface = if async_consumer { "async" } else { "blocking" };
+        let case = json!({"msg": mi, "source": SOURCE_NAMES[source as usize], "payload_len": len, "slices": shape, "consumer": iface, "section": "vectored"});
+        match r {
+            Ok(got) if got == expected => st.outcome("vectored-exact"),
+            Ok(got) => st.violate(
+                format!("{}:{}:vectored-stream-{}", iface, SOURCE_NAMES[source as usize], if got.len() < expected.len() { "short" } else if got.len() > expected.len() { "long" } else { "corrupt" }),
+                format!("{}: vectored reads delivered {} bytes, expected {}", case, got.len(), expected.len()),
+                case.clone(),
+            ),
+            Err(e) => st.violate(format!("{}:{}:vectored-error", iface, SOURCE_NAMES[source as usize]), format!("{}: {}", case, e), case.clone()),
+        }
+    }) {
+        vs.merge(p);
+    }
+    rep.section("vectored-consumers", vs);
     // failing payload sources: the stream may fail, but it must never present a clean end-of-stream before the
     // whole payload was delivered, and what it delivered must be a prefix of header+attributes ++ payload
     let kinds: Vec<ErrorKind> = FAULT_KINDS.iter().copied().chain([ErrorKind::InvalidData, ErrorKind::WriteZero, ErrorKind::NotConnected]).collect();
